@@ -175,6 +175,14 @@ func (s *c11Server) respond() {
 		emit([]byte{0xef, 0xbb, 0xbf, 'b', 'o', 'o', 'm'})
 	case s.sc.Resp == "oversize-max":
 		emit([]byte{0xff, 0xff, 0xff, 0xff})
+	case s.sc.Resp == "oversize-valid":
+		// a complete, well-formed response that is one byte larger than the limit for server
+		// responses (but well below the limit for client responses)
+		big := &conformancev1.ServerCompatResponse{Host: "127.0.0.1", Port: port, PemCert: bytes.Repeat([]byte("c"), maxServerResponseSize)}
+		b := frame(big)
+		over := len(b) - 4 - (maxServerResponseSize + 1)
+		big.PemCert = big.PemCert[:len(big.PemCert)-over]
+		emit(frame(big))
 	case s.sc.Resp == "eof":
 		s.exitLocked()
 	default:
@@ -801,6 +809,9 @@ func c11Scenarios(thorough bool) []c11Scenario {
 				out = append(out, s)
 			}
 			resps := []string{"nocert", "oversize", "zero", "garbage", "never", "eof", "garbage-high", "oversize-max"}
+			if n == 1 {
+				resps = append(resps, "oversize-valid")
+			}
 			full := len(frame(&conformancev1.ServerCompatResponse{Host: "127.0.0.1", Port: 4242}))
 			for k := 1; k < full; k++ {
 				if thorough || k <= 5 || k == full-1 {
@@ -916,3 +927,24 @@ func TestVerifC11(t *testing.T) {
 
 var _ = bytes.NewReader
 var _ = internal.DefaultHost
+
+// TestVerifC09CallSites is C09's view of the runner's use of the framing code: the limits,
+// timeouts and truncation handling it passes to ReadDelimitedMessage for server responses
+// (every cut offset, oversize prefixes incl. a complete message one byte over the limit, empty,
+// garbage, never, exit) must turn into setup errors for the whole batch.
+func TestVerifC09CallSites(t *testing.T) {
+	r := rep.New("c09-callsites")
+	defer r.Write()
+	r.Rule = "server-response framing scenarios of the batch runner (cut at every byte, oversize prefix, complete message of limit+1 bytes, zero-length, garbage, never, exit) through the real runTestCasesForServer; all orders of peer events; non-trivial = distinct (scenario, choice list)"
+	var scs []c11Scenario
+	for _, sc := range c11Scenarios(true) {
+		if sc.N > 2 || sc.Resp == "ok" || sc.Resp == "nocert" || sc.StartErr || sc.StdinErr != "none" {
+			continue
+		}
+		scs = append(scs, sc)
+	}
+	gateExplore(t, r, scs, 1, func(sc c11Scenario, prefix []int, expect []gate.PointRec) gateRun {
+		x, obs, leak := c11RunOne(t, sc, prefix, expect)
+		return gateRun{x: x, outcome: c11Outcome(sc, obs), verdicts: c11Judge(sc, obs, x), leak: leak}
+	})
+}
